@@ -34,6 +34,22 @@ type WriteRec struct {
 type chunk struct {
 	data []byte
 	err  error // delivered after data (io.EOF or a fault); nil for plain data
+	once bool  // the error is returned by one Read only (a transient fault), then reading goes on
+}
+
+// tempError is a net.Error that calls itself temporary.
+type tempError struct{}
+
+func (tempError) Error() string   { return "fakenet: resource temporarily unavailable" }
+func (tempError) Timeout() bool   { return false }
+func (tempError) Temporary() bool { return true }
+
+// TempError makes one Read (after the data queued so far) fail with a transient error.
+func (c *Conn) TempError() {
+	c.mu.Lock()
+	c.inq = append(c.inq, chunk{err: tempError{}, once: true})
+	c.cond.Broadcast()
+	c.mu.Unlock()
 }
 
 // Conn is the client's end of the fake socket.
@@ -86,7 +102,10 @@ func (c *Conn) Read(p []byte) (int, error) {
 			}
 			if ch.err != nil {
 				err := ch.err
-				// errors are sticky
+				if ch.once {
+					c.inq = c.inq[1:]
+				}
+				// other errors are sticky
 				c.nreads++
 				return 0, err
 			}
